@@ -8,6 +8,7 @@ pub enum SauceError {
     UnsupportedSauceDate(String),
     CommentLimitExceeded(usize),
     BinFileWidthLimitExceeded(i32),
+    BinFileOddWidth(i32),
 }
 
 impl std::fmt::Display for SauceError {
@@ -24,6 +25,9 @@ impl std::fmt::Display for SauceError {
             }
             SauceError::BinFileWidthLimitExceeded(limit) => {
                 write!(f, "bin file width limit exceeded (maximum of 512): {limit}")
+            }
+            SauceError::BinFileOddWidth(width) => {
+                write!(f, "bin file width can't be stored in sauce (only even widths from 2 on): {width}")
             }
         }
     }
